@@ -68,6 +68,13 @@ CHECKS = {
             "numpy slogdet/inv of the returned W with cond-scaled tolerances; orthogonality of Householder sequences for any vector "
             "length; constructor outputs finite and invertible.",
             "cond(W) > 1e8 (float64) / 1e3 (float32) inconclusive.", "DESIGN.md 3/C11"),
+    "C12": ("Hypothesis-generated transforms/flows/base distributions with heterogeneous batches (outlier rows, special points); "
+            "metamorphic relations row-alone / batch permutation / extra rows, each evaluation on a fresh deep copy",
+            "Exploration: for forward, inverse, log_prob and transform_to_noise in evaluation mode (also never-trained models), "
+            "float32 and float64: row i of a batch equals the row evaluated alone, permuting the batch permutes the results, "
+            "appending rows changes nothing; finiteness patterns must agree too.",
+            "Tolerance 1e-9 (float64; 1e-6 for inverses), 5e-3 (float32, forward-type targets only) because BLAS/vector code "
+            "paths differ per batch size; saturating chains are inconclusive.", "DESIGN.md 3/C12"),
     "C14": ("Hypothesis-generated operation histories on ActNorm/BatchNorm run in lock-step with a reference model of the "
             "documented life-cycle; outputs, log-dets and state_dict compared after every step",
             "Exploration: histories over train/eval/forward/inverse/save+load into a fresh instance/deepcopy, 2-D and 4-D batches, "
